@@ -247,6 +247,16 @@ class Bench:
             if k == "ctl":
                 _, use_addr, req, dout = op
                 a = addr if use_addr is None else use_addr
+                if (a == addr and req["type"] == 0 and req["request"] == 1 and req["recipient"] == 2 and not req["dirin"]
+                        and req["length"] == 0 and req["value"] == 0 and req["index"] == 0x84):
+                    # Env of CLEAR_FEATURE(ENDPOINT_HALT, IN): no IN packet may be waiting for its ACK -> poll (and ACK)
+                    # until the endpoint NAKs (also for requests that come from TLC-simulated behaviours)
+                    for _ in range(12):
+                        rec, resp = await self.bulk_in(ctx, host, addr, True)
+                        self._flush(rec)
+                        if resp["kind"] != "data":
+                            break
+                        await host.idle(ctx, 4)
                 outcome, data = await self.control(ctx, host, a, req, dout)
                 self._flush({"e": "ctl", "addr": a, "req": req, "outcome": outcome, "data": data})
                 if (a == addr and outcome == "ok" and req["type"] == 0 and req["request"] == 5
